@@ -576,8 +576,9 @@ func check(prop, tier string) int {
 		fmt.Printf("  oracle=%s: %s\n", conf.Oracle, conf.Msg)
 		nviol++
 	}
-	if nviol > 0 && (exit == 0 || softInfraOnly(infra)) {
-		// a confirmed, replayable violation stands even if other episodes ran into the step cap
+	if nviol > 0 && (exit == 0 || episodeInfraOnly(infra)) {
+		// a confirmed violation (replayed identically in two fresh processes) stands even if other
+		// episodes of the same run ended in a step cap or a harness panic; those are still printed above
 		exit = 1
 	}
 
@@ -699,10 +700,11 @@ func check(prop, tier string) int {
 	return exit
 }
 
-// softInfraOnly: every infrastructure note is an episode that hit its step cap.
-func softInfraOnly(infra []string) bool {
+// episodeInfraOnly: every infrastructure note concerns a single episode (step cap, harness panic),
+// none the run as a whole (watchdog, worker failure, nondeterminism).
+func episodeInfraOnly(infra []string) bool {
 	for _, s := range infra {
-		if !strings.Contains(s, "step cap") {
+		if !strings.HasPrefix(s, "episode ") {
 			return false
 		}
 	}
